@@ -342,6 +342,10 @@ pub struct Spec {
     /// Compact + flush once after the prefill (clean, committed buckets).
     pub prefill_flush: bool,
     pub threads: Vec<Vec<Op>>,
+    /// Explicit C04 check on top of the linearizability oracle: the value is
+    /// free initially and every thread tries `insert(_, value)` with its own
+    /// id; exactly one of them must return `Ok(true)`, the others `Conflict`.
+    pub one_winner: Option<&'static str>,
 }
 
 pub struct Built {
@@ -466,7 +470,9 @@ pub fn exec_once(b: &Built, ch: &mut Chooser, unique_at_every_step: bool) -> Cas
     case.outcome = render_outcome(&rets, &live);
     if !b.allowed.contains(&case.outcome) {
         case.fail = Some((
-            "not-linearizable".into(),
+            // The outcome itself is part of the signature: for a fixed
+            // template it is a shape, not a volatile value.
+            format!("not-linearizable[{}]", case.outcome.replace(['"', ' '], "")),
             format!(
                 "no sequential order of the operations gives {} (initial {:?}; {} allowed outcomes)",
                 case.outcome,
@@ -475,6 +481,30 @@ pub fn exec_once(b: &Built, ch: &mut Chooser, unique_at_every_step: bool) -> Cas
             ),
         ));
         return case;
+    }
+    if let Some(v) = b.spec.one_winner {
+        let mut winners = 0;
+        let mut losers = 0;
+        let mut contenders = 0;
+        for (ops, rs) in b.spec.threads.iter().zip(&rets) {
+            for (op, r) in ops.iter().zip(rs) {
+                if matches!(op, Op::Insert(_, k) if *k == v) {
+                    contenders += 1;
+                    match r {
+                        Ret::Bool(true) => winners += 1,
+                        Ret::Conflict => losers += 1,
+                        _ => {}
+                    }
+                }
+            }
+        }
+        if winners != 1 || winners + losers != contenders {
+            case.fail = Some((
+                "not-exactly-one-winner".into(),
+                format!("{contenders} contenders for free unique value {v:?}: {winners} succeeded, {losers} were rejected; returns {rets:?}"),
+            ));
+            return case;
+        }
     }
     if b.spec.unique && live.values().any(|s| s.len() > 1) {
         case.fail = Some(("two-owners".into(), format!("unique index ends with {live:?}")));
@@ -521,6 +551,7 @@ pub fn describe(spec: &Spec) -> serde_json::Value {
         "bucket_overload_size": 64,
         "prefill": spec.prefill.iter().map(|(id, k)| format!("{id}->{k}")).collect::<Vec<_>>(),
         "prefill_flushed": spec.prefill_flush,
+        "exactly_one_winner_for": spec.one_winner,
         "threads": spec.threads.iter().map(|t| t.iter().map(show_op).collect::<Vec<_>>()).collect::<Vec<_>>(),
     })
 }
